@@ -47,6 +47,21 @@ def refusal_label(e):
     return 'other'
 
 
+CONSTRAINT_KEYS = ('minimum', 'maximum', 'exclusiveMinimum', 'exclusiveMaximum', 'multipleOf', 'minLength', 'maxLength', 'pattern',
+                   'minItems', 'maxItems', 'uniqueItems')
+
+
+def untyped_constraints(s):
+    """some (sub-)schema carries constraint keywords but no type / enum / const"""
+    if isinstance(s, dict):
+        if any(k in s for k in CONSTRAINT_KEYS) and not any(k in s for k in ('type', 'enum', 'const', 'anyOf', 'oneOf', 'allOf')):
+            return True
+        return any(untyped_constraints(v) for v in s.values())
+    if isinstance(s, list):
+        return any(untyped_constraints(v) for v in s)
+    return False
+
+
 def check_value(V, s, T, x, tag, strict=True):
     try:
         if isinstance(T, type) and hasattr(T, '__from__') and isinstance(x, dict):
@@ -65,6 +80,8 @@ def check_value(V, s, T, x, tag, strict=True):
         lib = minijs.library_valid(s, j)
         if lib != ok:
             raise RuntimeError('mini validator (%r) and jsonschema (%r) disagree on %r / %r' % (ok, lib, s, j))
+    if untyped_constraints(s):
+        tag += ':untyped-constraints'
     V.check(ok, 'emit:forbidden-value:' + tag, lambda: 'schema %r: input %r -> %r (JSON %r) does not validate' % (s, x, y, j))
     V.cover('accept')
 
@@ -176,6 +193,9 @@ def enum_const(V):
 SUB = [{}, {'type': 'integer'}, {'type': 'integer', 'minimum': 0}, {'type': 'string'}, {'type': 'string', 'maxLength': 1},
        {'type': 'null'}, {'type': 'boolean'}, {'enum': [1, 'a']}, {'type': 'array', 'items': {'type': 'integer'}},
        {'type': 'object', 'properties': {'a': {'type': 'integer'}}, 'required': ['a']}]
+SUBC = [{'anyOf': [{'type': 'integer', 'minimum': 3}, {'type': 'null'}]},
+        {'oneOf': [{'type': 'string', 'maxLength': 1}, {'type': 'integer', 'minimum': 0}]},
+        {'allOf': [{'type': 'integer'}, {'minimum': 2}]}, {'type': 'array', 'items': {'anyOf': [{'type': 'integer', 'maximum': 1}, {'type': 'null'}]}}]
 ELEMS = [0, 1, -1, 'a', 'ab', None, True, 1.5, [1], ['a'], {'a': 1}, {'a': 'x'}, {}]
 
 
@@ -218,7 +238,7 @@ NAMES = ['a', 'a-b', '1x', 'class', 'items', 'keys', 'update', 'a b', '', '__ini
 
 @ob('object', marks=['accept', 'reject'], budget=(120, 400), exhaustive=False,
     bounds='{"type": "object"} with 1-2 properties whose names come from %r (non-identifiers, keywords, mapping methods, empty), '
-           'sub-schemas from 5, required bits, additionalProperties in {absent, true, false, {"type": "integer"}}, dependentRequired, '
+           'sub-schemas from 5 plain and 4 compositions with constrained branches, required bits, additionalProperties in {absent, true, false, {"type": "integer"}}, dependentRequired, '
            'min/maxProperties (solver ints 0..3); instance = dict over the property names + an unknown key with values from 9' % (NAMES,))
 def object_(V):
     n = V.pick('n_props', [1, 2])
@@ -230,7 +250,7 @@ def object_(V):
         names.append(nm)
     s = {'type': 'object', 'properties': {}}
     for i, nm in enumerate(names):
-        s['properties'][nm] = V.pick('sub%d' % i, SUB[1:6])
+        s['properties'][nm] = V.pick('sub%d' % i, SUB[1:6] + SUBC)
     req = [nm for i, nm in enumerate(names) if V.bool('req%d' % i)]
     if req:
         s['required'] = req
@@ -257,7 +277,7 @@ def object_(V):
     x = {}
     for i, nm in enumerate(names):
         if V.bool('x_has%d' % i):
-            x[nm] = V.pick('x_v%d' % i, [0, 1, -1, 'a', 'ab', None, True, '5', [1]])
+            x[nm] = V.pick('x_v%d' % i, [0, 1, -1, 'a', 'ab', None, True, '5', [1], 2, 3, [2, None]])
     if V.bool('x_unknown'):
         x['zz'] = V.pick('x_zz', [1, 'q', None])
     check_value(V, s, T, x, 'object:empty-name' if '' in names else 'object:unknown-key-dropped' if ('zz' in x and ap == 'absent') else 'object')
